@@ -103,6 +103,7 @@ type world struct {
 	best []types.Block // the host's best chain, best[i] has height i+1
 
 	contractor *testutil.EphemeralContractor
+	rc         *recContractor
 	log        *callLog
 	settings   *testutil.EphemeralSettingsReporter
 	base       proto4.HostSettings
@@ -155,8 +156,9 @@ func newWorld(c *Ctx) *world {
 	}
 	w.settings.Update(w.base)
 
+	w.rc = &recContractor{Contractor: w.contractor, log: w.log}
 	w.srv = rhp4.NewServer(w.hostKey, &recChain{ChainManager: w.cmH, log: w.log},
-		&recContractor{Contractor: w.contractor, log: w.log}, &recWallet{Wallet: w.H.w, log: w.log},
+		w.rc, &recWallet{Wallet: w.H.w, log: w.log},
 		w.settings, testutil.NewEphemeralSectorStore(), rhp4.WithPriceTableValidity(10*time.Minute))
 	l, err := net.Listen("tcp", "127.0.0.1:0")
 	must(err)
